@@ -108,9 +108,12 @@ def sliced1 (t : ItemType) : Bool := t == .tDollarIdent || t == .tDotIdent || t 
 /-- `tok.val[2:]` is taken of these -/
 def sliced2 (t : ItemType) : Bool := t == .tQuestionDotIdent || t == .tQuestionDotIndex
 
+/-- the types of the items that end a stream (EOF, Error), and that of the zero item -/
+def notEnd (t : ItemType) : Bool := t != .tEOF && t != .tError && t != .tInvalid
+
 def itemOK (it : Item) : Bool :=
   (!sliced1 it.typ || decide (1 ≤ it.val.length)) && (!sliced2 it.typ || decide (2 ≤ it.val.length)) &&
-    it.typ != .tEOF
+    notEnd it.typ
 
 /-- number of items sent so far whose value is too short for the parser's slices, or that are
     EOF items (the EOF item is only ever the very last one) -/
@@ -121,13 +124,13 @@ def Lexer.badInit (l : Lexer) : Nat := (l.items.toList.dropLast.filter (fun it =
 
 /-- emitting a token of type `t` with `n` bytes is fine -/
 def emitOK (t : ItemType) (n : Int) : Prop :=
-  (sliced1 t = true → 1 ≤ n) ∧ (sliced2 t = true → 2 ≤ n) ∧ t ≠ .tEOF
+  (sliced1 t = true → 1 ≤ n) ∧ (sliced2 t = true → 2 ≤ n) ∧ notEnd t = true
 
 theorem emitOK_mono {t : ItemType} {a b : Int} (h : emitOK t a) (hab : a ≤ b) : emitOK t b :=
   ⟨fun h1 => by have := h.1 h1; omega, fun h2 => by have := h.2.1 h2; omega, h.2.2⟩
 
 theorem emitOK_safe {t : ItemType} {n : Int} (h1 : sliced1 t = false) (h2 : sliced2 t = false)
-    (h3 : t ≠ .tEOF := by decide) : emitOK t n :=
+    (h3 : notEnd t = true := by decide) : emitOK t n :=
   ⟨fun h => by rw [h1] at h; exact absurd h (by simp), fun h => by rw [h2] at h; exact absurd h (by simp), h3⟩
 
 @[simp] theorem backup_pos (l : Lexer) : l.backup.pos = l.pos - l.width := rfl
@@ -550,17 +553,18 @@ theorem lookup_snd_mem {α : Type} [BEq α] (k : α) : ∀ (l : List (α × Item
     · simp only [Option.some.injEq] at h; subst h; simp
     · have := ih v h; simp only [List.map_cons, List.mem_cons]; exact Or.inr this
 
-theorem symbols_vals_safe : ∀ t ∈ Gen.symbols.map (·.2), sliced1 t = false ∧ sliced2 t = false ∧ t ≠ .tEOF := by decide
-theorem builtins_vals_safe : ∀ t ∈ Gen.builtinIdents.map (·.2), sliced1 t = false ∧ sliced2 t = false ∧ t ≠ .tEOF := by decide
+theorem symbols_vals_safe : ∀ t ∈ Gen.symbols.map (·.2), sliced1 t = false ∧ sliced2 t = false ∧ notEnd t = true := by decide
+theorem builtins_vals_safe : ∀ t ∈ Gen.builtinIdents.map (·.2), sliced1 t = false ∧ sliced2 t = false ∧ notEnd t = true := by decide
 
 theorem symbols_lookup_ok {k : Bytes} {t : ItemType} {n : Int} (h : Gen.symbols.lookup k = some t) : emitOK t n := by
   have := symbols_vals_safe t (lookup_snd_mem k _ t h)
   exact emitOK_safe this.1 this.2.1 this.2.2
 
-theorem symbols_getD_ok (k : Bytes) (n : Int) : emitOK ((Gen.symbols.lookup k).getD .tInvalid) n := by
-  cases h : Gen.symbols.lookup k with
-  | none => exact emitOK_safe rfl rfl
-  | some t => exact symbols_lookup_ok h
+theorem symbols_getD_ok (r : Int) (n : Int)
+    (h : r = 42 ∨ r = 47 ∨ r = 37 ∨ r = 43 ∨ r = 58 ∨ r = 40 ∨ r = 41) :
+    emitOK ((Gen.symbols.lookup [r.toNat.toUInt8]).getD .tInvalid) n := by
+  rcases h with rfl | rfl | rfl | rfl | rfl | rfl | rfl <;>
+    exact emitOK_safe (by decide) (by decide) (by decide)
 
 theorem builtins_lookup_ok {k : Bytes} {t : ItemType} {n : Int} (h : Gen.builtinIdents.lookup k = some t) : emitOK t n := by
   have := builtins_vals_safe t (lookup_snd_mem k _ t h)
@@ -568,7 +572,7 @@ theorem builtins_lookup_ok {k : Bytes} {t : ItemType} {n : Int} (h : Gen.builtin
 
 /-- the emitted token type is not one the parser slices, or long enough -/
 macro "eok" : tactic => `(tactic|
-  first | exact emitOK_safe rfl rfl | exact symbols_getD_ok _ _ | (apply symbols_lookup_ok; assumption)
+  first | exact emitOK_safe rfl rfl | (apply symbols_getD_ok; assumption) | (apply symbols_lookup_ok; assumption)
         | (apply builtins_lookup_ok; assumption) | assumption)
 
 /-- `let (r, l) ← l.next` -/
